@@ -170,6 +170,11 @@ func runScript(sc Script) outcome {
 		commanded[a.I] = true
 		cmds[a.I] <- a.Ok
 		<-exited[a.I]
+		if a.Hs {
+			// the dial function has returned its connection; dialTransport now fails the handshake and has to
+			// close the socket itself: wait for that (not for a fixed time) before anything is observed
+			waitClosed(conns, &mu, a.I)
+		}
 		switch {
 		case r != nil || cancelled:
 			// connect has returned (or will not receive): the dialer takes <-ctx.Done(); wait for the close
@@ -549,7 +554,7 @@ func main() {
 		enumerate(4, true, func(s Script) { one("all", s) })
 	}
 	// random scripts for N = 4, 5
-	for k := 0; k < c.N(240, 3000); k++ {
+	for k := 0; k < c.N(240, 1500); k++ {
 		n := 4 + c.Rng.Intn(2)
 		perm := c.Rng.Intn(1 << 30)
 		var acts []Act
